@@ -4,9 +4,13 @@ import (
 	"bytes"
 	"encoding/binary"
 	"fmt"
+	"github.com/netflix/rend/handlers/memcached"
 	"math/rand"
+	"os"
+	"path/filepath"
 	"strings"
 	"time"
+	"verif/harness"
 
 	"github.com/netflix/rend/handlers/memcached/chunked"
 
@@ -294,6 +298,7 @@ func childC16(args []string) int {
 			}
 		}
 	}
+	c16Deployment(run)
 	run.Count("chunk_writes_observed", cd.writes)
 	run.Count("key_lengths_observed", int64(len(cd.chunkValLen)))
 	lens := map[string]int{}
@@ -302,4 +307,108 @@ func childC16(args []string) int {
 	}
 	run.Sample(map[string]interface{}{"learned_chunk_value_length_by_key_length": lens})
 	return finish()
+}
+
+// c16Deployment: the discipline at the level the handler is deployed at. (1) the constructor
+// memproxy uses (memcached.Chunked) called while the backend starts listening a moment later:
+// either it fails or what it hands out chunks; (2) memproxy started with --chunked, alone and
+// combined with the other L1 options: every entry that reaches the L1 backend is a metadata
+// entry of 40 bytes or a chunk of the one length its key length allows.
+func c16Deployment(run *evid.Run) {
+	entryProblem := func(st *fakemc.Store, keys []string) string {
+		for bk, e := range st.SnapshotAll() {
+			owner := ""
+			idx := -2
+			for _, k := range keys {
+				if i := derivedIndex(k, bk); i != -2 {
+					owner, idx = k, i
+				}
+			}
+			switch {
+			case owner == "":
+				return fmt.Sprintf("backend entry %q is not a metadata or chunk entry of any key written", bk)
+			case idx == -1 && len(e.Value) != 40:
+				return "metadata value length is not 40"
+			case idx >= 0 && len(e.Value) != chunkPayload(len(owner))+16:
+				return "chunk value length differs from 1184 - 71 - key length"
+			case len(bk)+len(e.Value)+67 > 1184:
+				return "key + value + 67 exceeds the slab budget"
+			}
+		}
+		return ""
+	}
+	// (1) constructor with a backend that comes up late
+	for i := 0; i < run.Pick(6, 40); i++ {
+		announceCase("constructor with a late backend")
+		dir := filepath.Join(harness.Scratch(), fmt.Sprintf("c16-late-%d-%d", os.Getpid(), i))
+		os.MkdirAll(dir, 0o755)
+		sock := filepath.Join(dir, "l1.sock")
+		st := fakemc.NewStore("L1")
+		lateBy := time.Duration(20+i%5*30) * time.Millisecond
+		var srv *fakemc.Server
+		done := make(chan struct{})
+		go func() {
+			time.Sleep(lateBy)
+			srv, _ = fakemc.Listen(st, "unix", sock)
+			close(done)
+		}()
+		h, err := memcached.Chunked(sock)()
+		<-done
+		run.Eval(1)
+		run.Count("constructor_calls_with_late_backend", 1)
+		run.Distinct(fmt.Sprintf("deploy|constructor|%v", lateBy))
+		if err != nil || h == nil {
+			run.Count("constructor_calls_refused", 1)
+		} else {
+			keys := []string{"late-a", "late-bb"}
+			for j, k := range keys {
+				handlerExec(h, wire.Cmd{Op: "set", Key: k, Value: makeValue(uint32(7000+i*2+j), []int{30, 2500}[j]), Flags: 5}, 0)
+			}
+			if d := entryProblem(st, keys); d != "" {
+				run.Violation("chunked|deployment|handler constructed while the backend was still coming up|"+d, map[string]interface{}{"backend_listens_after_ms": lateBy.Milliseconds(), "backend_keys": sortedStoreKeys(st)})
+			}
+			h.Close()
+		}
+		if srv != nil {
+			srv.Close()
+		}
+	}
+	// (2) memproxy option combinations
+	for _, extra := range [][]string{nil, {"--l1-batched"}, {"--batch-size", "4"}} {
+		for _, l2 := range []bool{false, true} {
+			cfg := harness.ProxyCfg{L2: l2, L1Kind: "chunked", ExtraArgs: extra}
+			announceCase("memproxy " + cfg.Name() + " " + strings.Join(extra, " "))
+			p, err := harness.StartProxy(cfg)
+			if err != nil {
+				run.Inconclusive("cannot start memproxy " + strings.Join(extra, " ") + ": " + err.Error())
+				continue
+			}
+			cl, err := p.Dial(0, true)
+			if err != nil {
+				run.Inconclusive("dial: " + err.Error())
+				p.Stop()
+				continue
+			}
+			keys := []string{"d", "dep-key-2", strings.Repeat("k", 100)}
+			bad := ""
+			for j, k := range keys {
+				r, err := cl.Do(wire.Cmd{Op: "set", Key: k, Value: makeValue(uint32(7100+j), []int{0, 700, 4000}[j]), Flags: 9, Opaque: uint32(j + 1)})
+				if err != nil || r.Class != "ok" {
+					bad = "set through memproxy failed: " + r.Class
+				}
+				cl.Do(wire.Cmd{Op: "append", Key: k, Value: []byte("tail"), Opaque: uint32(j + 11)})
+			}
+			cl.Close()
+			if bad == "" {
+				bad = entryProblem(p.L1, keys)
+			}
+			run.Eval(1)
+			run.Count("memproxy_deployments", 1)
+			run.Distinct("deploy|memproxy|" + cfg.Name() + "|" + strings.Join(extra, " "))
+			if bad != "" {
+				run.Violation("chunked|deployment|memproxy --chunked "+strings.Join(extra, " ")+"|"+bad, map[string]interface{}{"config": cfg, "l1_keys": sortedStoreKeys(p.L1)})
+			}
+			p.Stop()
+		}
+	}
 }
